@@ -231,6 +231,10 @@ H_Register(st, req, p) ==
     IF t.err # "" THEN Fail(st, t.err)
     ELSE IF p.obj.wrapped THEN Unmodelled(st)
     \* a symmetric key whose stated length does not match its value is refused
+    \* only X.509 certificates can be stored
+    ELSE IF p.otype = "Certificate" /\ p.obj.sub # "X_509" THEN Fail(st, "InvalidField")
+    \* a key block without cryptographic algorithm or length cannot be stored
+    ELSE IF HasAlg(p.otype) /\ (p.obj.alg = "NA" \/ p.obj.len = 0) THEN Fail(st, "InvalidField")
     ELSE IF p.otype = "SymmetricKey" /\ p.obj.len # 8 * p.obj.vlen THEN Fail(st, "InvalidField")
     ELSE LET base == [NewObj(p.otype, req.user, req.now) EXCEPT
                         !.alg = IF HasAlg(p.otype) THEN p.obj.alg ELSE "NA",
